@@ -4,6 +4,10 @@ import SqlObjVerif.Lemmas.QueryXAgg
 import SqlObjVerif.Lemmas.QueryXBool
 import SqlObjVerif.Lemmas.QueryXRepr
 import SqlObjVerif.Lemmas.QueryXSelect
+import SqlObjVerif.Lemmas.QueryXKw
+import SqlObjVerif.Lemmas.QueryXOrder
+import SqlObjVerif.Lemmas.QueryXChain
+import SqlObjVerif.Lemmas.QueryXLookup
 /-!
 # C11 — selects, orderings, counts and aggregates equal the same query over a plain copy of the rows
 
@@ -583,7 +587,7 @@ theorem C11_translated_DESC_sqlrepr_eq_model (v db : PyQ.Val)
       if hasCls "DESC" v = true then
         ofR ((attrOf (qIface sch P fnRec cm cv) v "expr").bind fun w => fnRec "sqlrepr" [w, db] [])
       else ofR (addDesc (fnRec "sqlrepr" [v, db] [])) :=
-  descSqlrepr_step sch P fnRec cm cv v db hstr
+  descSqlrepr_step sch P fnRec cm cv v db (fun _ => hstr)
 
 theorem C11_translated_str_or_sqlrepr_eq_model (e db : PyQ.Val) :
     strOrSqlreprX (qIface sch P fnRec cm cv) e db =
@@ -632,6 +636,205 @@ theorem C11_translated_aggregate_plan (cv' : PyQ.Val) (d : List (Str × PyQ.Val)
   rw [hrep.distinct]
   cases s.distinct <;> rfl
 
+/-! ### second batch: `_SO_columnClause`, the lookups, the ORDER BY text, the composed chains -/
+
+/-- **`_SO_columnClause` as translated computes `columnClause`** for EVERY keyword dict (the loop with its `pop`s over
+    `sqlmeta.columnList`, `id` first, foreign names, instances ↦ their id, the comprehension and `' AND '.join`):
+    TypeError exactly when the hand model refuses a keyword, `None` when there is no condition, else the text of the
+    hand model's conditions (`IS` for `None`, `=` otherwise).  `NoClash`: the Python names `id`, column names and
+    foreign names of the class are distinct; an instance used as a value renders as its id. -/
+theorem C11_translated_columnClause_eq_model (hnc : NoClash sch)
+    (hobj : ∀ id, P.sqlrepr (kwValV (.obj id)) = P.sqlrepr (.int id)) (conn : PyQ.Val)
+    (hsr : ∀ a, methodOf (qIface sch P fnRec cm cv) conn "sqlrepr" [a] [] = .ok (.str (P.sqlrepr a))) (kw : Kw) :
+    columnClauseX (qIface sch P fnRec cm cv) conn clsV (kwV kw) = ccOut P.sqlrepr sch (columnClause sch kw) :=
+  columnClause_translated sch P fnRec cm cv hnc hobj conn hsr kw
+
+/-- **selectBy_sem about the translated source.**  Whenever the translated `_SO_columnClause` returns (no TypeError),
+    what it returns is `None` or the text of a clause that is TRUE for exactly the rows whose bound columns equal the
+    given values (`None` ↔ NULL, an instance ↦ its id) under three-valued logic, and every keyword was bound; it raises
+    TypeError exactly for an unexpected keyword. -/
+theorem C11_translated_selectBy_sem (hnc : NoClash sch)
+    (hobj : ∀ id, P.sqlrepr (kwValV (.obj id)) = P.sqlrepr (.int id)) (conn : PyQ.Val)
+    (hsr : ∀ a, methodOf (qIface sch P fnRec cm cv) conn "sqlrepr" [a] [] = .ok (.str (P.sqlrepr a))) (kw : Kw) :
+    (∀ v, columnClauseX (qIface sch P fnRec cm cv) conn clsV (kwV kw) = .ret v →
+      ∃ cl, columnClause sch kw = some cl ∧ Out.ret v = ccOut P.sqlrepr sch (some cl)
+        ∧ (∀ e : Env, holds (cl.getD .tt) e = true ↔ ∀ c w, Bound sch kw c w → e.row.get c = w.toVal)
+        ∧ (∀ kv ∈ kw, consumed kw sch.cols kv.1 = true))
+    ∧ (columnClauseX (qIface sch P fnRec cm cv) conn clsV (kwV kw) = .exc .typeError ↔
+        ∃ kv ∈ kw, consumed kw sch.cols kv.1 = false) := by
+  rw [C11_translated_columnClause_eq_model sch P fnRec cm cv hnc hobj conn hsr kw]
+  constructor
+  · intro v hv
+    cases hc : columnClause sch kw with
+    | none => rw [hc] at hv; simp [ccOut] at hv
+    | some cl =>
+      obtain ⟨h1, h2⟩ := C11_selectBy_sem sch kw cl hc
+      exact ⟨cl, rfl, by rw [← hv, hc], h1, h2⟩
+  · rw [← columnClause_none]
+    cases hc : columnClause sch kw with
+    | none => simp [ccOut]
+    | some cl =>
+      have := (columnClause_some sch kw cl hc).2
+      subst this
+      by_cases hd : (kwData sch kw).isEmpty = true <;> simp [ccOut, hd]
+
+/-- `_SO_selectOneAlt` as translated: the column names become constants, `Select(columns, staticTables=[table],
+    clause=condition)` is rendered by `self.sqlrepr` and run by `self.queryOne`. -/
+theorem C11_translated_selectOneAlt_eq_model (conn cond : PyQ.Val) (n0 : Str) (names : List Str) :
+    selectOneAltX (qIface sch P fnRec cm cv) conn clsV (.list ((n0 :: names).map .str)) cond =
+      ofR ((fnRec "Select" [.list ((n0 :: names).map fun n => constV (.str n))]
+          [(kStaticTables, .list [.str sch.table]), (kClause, cond)]).bind fun q =>
+        (methodOf (qIface sch P fnRec cm cv) conn "sqlrepr" [q] []).bind fun t =>
+          methodOf (qIface sch P fnRec cm cv) conn "queryOne" [t] []) :=
+  selectOneAlt_translated sch P fnRec cm cv conn cond n0 names
+
+/-- `_SO_fetchAlternateID` as translated (alternate-id lookups, `idxName=None`) is `fetchAlternateID`: no row →
+    `SQLObjectNotFound` (never `None`), a row → the instance `cls.get(row[0], selectResults=row[1:])`. -/
+theorem C11_translated_fetchAlternateID_eq_model (name dbName value connection result obj : PyQ.Val)
+    (hres : result = .none ∨ result = .tuple [] ∨ ∃ idv rest, result = .tuple (idv :: rest))
+    (hfind : cm clsV "_findAlternateID" [name, dbName, value, connection] [] = .ok (.tuple [result, obj])) :
+    fetchAlternateIDX (qIface sch P fnRec cm cv) clsV name dbName value connection .none =
+      altOut (qIface sch P fnRec cm cv) clsV connection result obj :=
+  fetchAlternateID_translated sch P fnRec cm cv name dbName value connection result obj hres hfind
+
+/-- `SODatabaseIndex.get(**kw)` as translated is the head of `indexGet`: the arity check (TypeError), then
+    `soClass.selectBy(connection=None, **kw).getOne()`. -/
+theorem C11_translated_indexGet_eq_model (icols : List ColSpec) (kw : List (Str × PyQ.Val))
+    (hk : aget kConnection kw = none) :
+    indexGetX (qIface sch P fnRec cm cv) (indexV icols) [] kw =
+      if kw ≠ [] ∧ kw.length ≠ icols.length then .exc .typeError
+      else ofR ((cm clsV "selectBy" [] ((kConnection, .none) :: kw)).bind fun sel =>
+        methodOf (qIface sch P fnRec cm cv) sel "getOne" [] []) :=
+  indexGet_translated sch P fnRec cm cv icols kw hk
+
+/-- **`sqlrepr` of an order expression, fully** (`DESC.__sqlrepr__` resolved by the translated function itself, `n`
+    levels deep): the text of `OExpr.key` — nested `DESC`s cancel in pairs. -/
+theorem C11_translated_DESC_full_eq_model (db : PyQ.Val) (e : OExpr) (n : Nat) (h : OExpr.depth e < n) :
+    sqlreprFn sch P cm cv n "sqlrepr" [OExpr.toVal sch e, db] [] = .ok (.str (keyText P sch e.key)) :=
+  sqlrepr_full sch P cm cv db e n h
+
+/-- **the ORDER BY statement of `Select.__sqlrepr__` as translated renders `orderKeys`**: nothing without an order,
+    else ` ORDER BY ` and the keys joined by `, `, the reverser (`DESC` when `reversed`) wrapped around EVERY key. -/
+theorem C11_translated_orderBy_text_eq_model (hcv : ∀ v, cv (.glob "DESC") [v] = .ok (descV v)) (db : PyQ.Val) (select : Str)
+    (d : List (Str × PyQ.Val)) (o : DbOrder) (r : Bool) (n : Nat) (hn : DbOrder.depthOk n o)
+    (ho : aget kOrderBy d = some (DbOrder.toVal sch o)) (hr : aget kReversed d = some (.bool r)) :
+    orderByReprX (qIface sch P (sqlreprFn sch P cm cv n) cm cv) (selObj d) db select =
+      .ret (.str (select ++ orderText P sch (orderKeys { clause := .tt, order := o, reversed := r }))) :=
+  orderByRepr_translated sch P cm cv hcv db select d o r n hn ho hr
+
+/-- **`reversed()` → `clone` → `__init__` about the translated chain** (every method call resolved by the translated
+    callee: `cm3`): the object built represents `Sel.rev`, and the invariant `Good` is kept, so the theorem iterates. -/
+theorem C11_translated_reversed_rep (dbn : PyQ.Val)
+    (hdb : ∀ cm, attrOf (qIface sch P fnRec cm cv) P.conn "dbName" = .ok dbn)
+    (s : Sel) (o : OrderBy) (d : List (Str × PyQ.Val)) (ct ts : PyQ.Val) (hct : truthy ct = false)
+    (g : Good sr sch d s o) :
+    ∃ d' ts', reversedX (qIface sch P fnRec (cm3 sch P fnRec cm cv) cv) (srObj clsV (clauseV sr sch s.clause) (.dict d) ct ts)
+        = .ret (srObj clsV (clauseV sr sch s.clause) (.dict d') ct ts') ∧ Good sr sch d' s.rev o :=
+  reversed_rep sr sch P fnRec cm cv dbn hdb s o d ct ts hct g
+
+theorem C11_translated_distinct_rep (dbn : PyQ.Val)
+    (hdb : ∀ cm, attrOf (qIface sch P fnRec cm cv) P.conn "dbName" = .ok dbn)
+    (s : Sel) (o : OrderBy) (d : List (Str × PyQ.Val)) (ct ts : PyQ.Val) (hct : truthy ct = false)
+    (g : Good sr sch d s o) :
+    ∃ d' ts', distinctX (qIface sch P fnRec (cm3 sch P fnRec cm cv) cv) (srObj clsV (clauseV sr sch s.clause) (.dict d) ct ts)
+        = .ret (srObj clsV (clauseV sr sch s.clause) (.dict d') ct ts') ∧ Good sr sch d' s.dist o :=
+  distinct_rep sr sch P fnRec cm cv dbn hdb s o d ct ts hct g
+
+/-- **`sum / min / max / avg` → plan text about the translated chain** (`accumulateOne`, `accumulateMany`,
+    `_getConnection` resolved by the translated callees: `cmOne`): `accumulate` is handed exactly the text of the item
+    of `aggPlan` of the represented select — the SQL function of the method, DISTINCT exactly for a distinct select. -/
+theorem C11_translated_sum_plan_text (cl ct ts : PyQ.Val) (d : List (Str × PyQ.Val)) (s : Sel) (hrep : Rep sr sch cl d s)
+    (hc : truthyOpt d kConnection = false)
+    (hsr : ∀ cm a, methodOf (qIface sch P fnRec cm cv) P.conn "sqlrepr" [a] [] = .ok (.str (P.sqlrepr a)))
+    (t : Term) :
+    sumX (qIface sch P fnRec (cmOne sch P fnRec cm cv) cv) (srObj clsV cl (.dict d) ct ts) (termArgV sch t)
+        = aggAcc sch P cm .sum s t (srObj clsV cl (.dict d) ct ts)
+    ∧ minX (qIface sch P fnRec (cmOne sch P fnRec cm cv) cv) (srObj clsV cl (.dict d) ct ts) (termArgV sch t)
+        = aggAcc sch P cm .min s t (srObj clsV cl (.dict d) ct ts)
+    ∧ maxX (qIface sch P fnRec (cmOne sch P fnRec cm cv) cv) (srObj clsV cl (.dict d) ct ts) (termArgV sch t)
+        = aggAcc sch P cm .max s t (srObj clsV cl (.dict d) ct ts)
+    ∧ avgX (qIface sch P fnRec (cmOne sch P fnRec cm cv) cv) (srObj clsV cl (.dict d) ct ts) (termArgV sch t)
+        = aggAcc sch P cm .avg s t (srObj clsV cl (.dict d) ct ts) :=
+  sum_plan_text sr sch P fnRec cm cv cl ct ts d s hrep hc hsr t
+
 end X
+
+/-! ## Non-vacuity of the translated family: the interpreter RUN on concrete inputs (kernel evaluation) -/
+
+namespace XEx
+open SqlObjVerif.PyQ SqlObjVerif.QueryX
+
+/-- concrete library / database parameters -/
+def P0 : Params :=
+  { conn := .obj "Connection" [("dbName", .str ['s', 'q', 'l', 'i', 't', 'e'])]
+    tablesUsed := fun _ _ => [], setAdd := fun _ _ => [], listOf := fun _ => [], repr := fun _ => []
+    sqlrepr := fun v => match v with
+      | .obj _ ((_, .str n) :: _) => ['t', '.'] ++ n
+      | .str s => s
+      | .none => ['N', 'U', 'L', 'L']
+      | .int _ => ['7']
+      | _ => ['?']
+    fmt := fun _ => none }
+
+def fn0 : String → List PyQ.Val → List (Str × PyQ.Val) → R PyQ.Val := fun _ _ _ => .stuck
+def cmConn : PyQ.Val → String → List PyQ.Val → List (Str × PyQ.Val) → R PyQ.Val := fun _ m args _ =>
+  if m = "sqlrepr" then (match args with
+    | [v] => .ok (.str (P0.sqlrepr v))
+    | _ => .stuck) else .stuck
+def cv0 : PyQ.Val → List PyQ.Val → R PyQ.Val := fun f args => match f, args with
+  | .glob _, [v] => .ok (descV v)
+  | _, _ => .stuck
+
+def I0 : Iface := qIface exSch P0 fn0 cmConn cv0
+def I3 : Iface := qIface exSch P0 fn0 (cm3 exSch P0 fn0 cmConn cv0) cv0
+
+def opsOf : Option PyQ.Val → Option (List (Str × PyQ.Val))
+  | some (.obj _ fs) => match aget "ops" fs with
+    | some (.dict d) => some d
+    | _ => none
+  | _ => none
+
+def retOf : Out → Option PyQ.Val
+  | .ret v => some v
+  | _ => none
+
+/-- `_mungeOrderBy('-a')` = `DESC(T.q.a)`, `_mungeOrderBy('-zz')` = `DESC(SQLConstant('zz'))` -/
+example : mungeX I0 (.obj "SelectResults" [("sourceClass", clsV)]) (.str ['-', 'a']) = .ret (descV (fieldV ['a'])) := rfl
+example : mungeX I0 (.obj "SelectResults" [("sourceClass", clsV)]) (.str ['-', 'z', 'z']) = .ret (descV (constV (.str ['z', 'z']))) := rfl
+
+def ops1 : List (Str × PyQ.Val) :=
+  [(kOrderBy, .tuple [.str ['-', 'a'], .str ['b', 'V']]), (kLimit, .none), (kReversed, .bool false), (kDistinct, .bool false),
+   (kConnection, .none)]
+
+/-- the translated `__init__` (with the translated `_mungeOrderBy` / `_getConnection`) on `select(orderBy=('-a','bV'))` -/
+def sel1 : Out × Option PyQ.Val := initX (qIface exSch P0 fn0 (cm1 exSch P0 fn0 cmConn cv0) cv0) clsV .none .none ops1
+
+example : (opsOf sel1.2).bind (aget kDbOrderBy) = some (.list [descV (fieldV ['a']), fieldV ['b', 'V']]) := rfl
+example : (opsOf sel1.2).bind (aget kConnection) = none := rfl
+
+/-- a full chain: `select(…).reversed().distinct()` through `clone` and `__init__`, all translated -/
+def sel2 : Option PyQ.Val := (sel1.2.bind fun o => retOf (reversedX I3 o)).bind fun o => retOf (distinctX I3 o)
+
+example : ((opsOf sel2).bind (aget kReversed), (opsOf sel2).bind (aget kDistinct)).1 = some (.bool true) := rfl
+example : (opsOf sel2).bind (aget kDistinct) = some (.bool true) := rfl
+example : (opsOf sel2).bind (aget kDbOrderBy) = some (.list [descV (fieldV ['a']), fieldV ['b', 'V']]) := rfl
+
+/-- the ORDER BY text of a reversed select over `[DESC(a), bV]`: the reverser wraps every key, DESC of DESC cancels -/
+example : orderByReprX (qIface exSch P0 (sqlreprFn exSch P0 cmConn cv0 6) cmConn cv0)
+    (selObj [(kOrderBy, .list [descV (fieldV ['a']), fieldV ['b', 'V']]), (kReversed, .bool true)]) (.str ['s', 'q']) ['S'] =
+    .ret (.str (['S'] ++ " ORDER BY t.a, t.bV DESC".toList)) := rfl
+
+/-- the keyword clause of `selectBy(a=7, fk=None)` and the TypeError of an unexpected keyword -/
+example : columnClauseX I0 (.glob "conn") clsV (kwV [(['a'], .int 7), (['f', 'k'], .none)]) =
+    .ret (.str "a = 7 AND fk_id IS NULL".toList) := rfl
+example : columnClauseX I0 (.glob "conn") clsV (kwV [(['a'], .int 7), (['z'], .none)]) = .exc .typeError := rfl
+
+/-- `AND(c1, c2, c3)` by the translated function calling itself -/
+example : andX (qIface exSch P0 (naryFn exSch P0 cmConn cv0 3) cmConn cv0) [.int 1, .int 2, .int 3] =
+    .ret (sqlOpV ['A', 'N', 'D'] (.int 1) (sqlOpV ['A', 'N', 'D'] (.int 2) (.int 3))) := rfl
+
+/-- the hypotheses of the chain theorems are satisfiable: `NoClash` of the example schema -/
+example : NoClash exSch := by unfold NoClash; decide
+end XEx
 
 end SqlObjVerif.Query
